@@ -2,21 +2,31 @@
 
 `amap(ctx, fn, shards)` returns exactly what `ctx.pmap(fn, shards)` returns (results in shard order; the set of
 cases and every verdict are identical), but runs the shards in-process when the 1-minute load average is far above
-the number of CPUs.  Measured on this host at load ~130 on 16 CPUs: the same 20 CPU-seconds of work take 21 s in one
+the number of CPUs (see `oversubscribed`).  Measured on this host at load ~130 on 16 CPUs: the same 20 CPU-seconds of work take 21 s in one
 process, 30 s on 4 workers and 55 s on 16 workers (CPU steal and page-fault cost of 16 freshly forked heaps), so a fork
 pool is counter-productive exactly when the time budget is tightest.  Only the schedule depends on the load, never a result.
 """
 import os
 
-OVERSUBSCRIBED = 3.0   # load average per CPU above which the pool is not used
+OVERSUBSCRIBED = 0.75   # load per CPU above which the pool is not used
 
 
 def oversubscribed():
+    """1-minute load average, or the number of currently runnable tasks (more current), above 0.75 per CPU.
+    The choice is asymmetric on purpose: in-process on an idle machine costs seconds, a pool on a busy one minutes
+    (at load ~35 on 16 CPUs a 13 s in-process run took 43 s on the pool)."""
+    ncpu = os.cpu_count() or 1
+    load = 0.0
     try:
         load = os.getloadavg()[0]
     except (OSError, AttributeError):
-        return False
-    return load > OVERSUBSCRIBED * (os.cpu_count() or 1)
+        pass
+    try:
+        with open("/proc/loadavg") as fd:
+            load = max(load, float(fd.read().split()[3].split("/")[0]) - 1)
+    except (OSError, ValueError, IndexError):
+        pass
+    return load > OVERSUBSCRIBED * ncpu
 
 
 def amap(ctx, fn, shards):
